@@ -533,8 +533,16 @@ mut(
     "C19",
     "C19.names",
     GU,
-    "        or global__all__.append(name_tpl.format(name=name))\n",
+    "        or global__all__.append(ensure_valid_identifier(name_tpl.format(name=name)))\n",
     "        or global__all__.append(name)\n",
+)
+mut(
+    "c19-all-gets-unsanitised-name",  # regression of the fixed defect bf8c3e0
+    "C19",
+    "C19.names",
+    GU,
+    "        or global__all__.append(ensure_valid_identifier(name_tpl.format(name=name)))\n",
+    "        or global__all__.append(name_tpl.format(name=name))\n",
 )
 mut(
     "c19-kwarg-table-entry-dropped",
